@@ -1018,7 +1018,8 @@ def _fires_of(fn, evname):
 def _writes_of(fn, field, value_text):
     out = []
     for n in walk_shallow(fn):
-        if isinstance(n, ast.Assign) and any(isinstance(t, ast.Attribute) and t.attr == field for t in n.targets) and unparse(n.value) == value_text:
+        if isinstance(n, ast.Assign) and any(isinstance(t, ast.Attribute) and t.attr == field for t in n.targets) \
+                and (value_text is None or unparse(n.value) == value_text):
             out.append(n)
     return out
 
@@ -1083,6 +1084,24 @@ def r43_notifications(ctx, sc: SimCtx):
                     ctx.finding('R4.3', f'{ci.name}.{fn.name}:{ev}', ci, c,
                                 f'{ev} can be fired more than once or at the wrong moment: fired under `replication_state == {state_from}` test: '
                                 f'{dominated}; replication_state := {state_to} on every such path: {moved}', where=f'{ci.name}.{fn.name}')
+                if ev == 'END_REPLICATION_EVENT':
+                    # the end of the replication is announced last: both states already read ENDED when listeners are told, and no
+                    # state is written after the notification (a listener may start the next replication from inside notify)
+                    rw = [g.node_for(w) for w in _writes_of(fn, '_run_state', 'RunState.ENDED')]
+                    before = bool(writes) and bool(rw) and any(g.dominates(w, node) for w in writes) and any(g.dominates(w, node) for w in rw)
+                    later = []
+                    for fld in ('_run_state', '_replication_state'):
+                        for w in _writes_of(fn, fld, None):
+                            wn = g.node_for(w)
+                            if wn is not node and g.reaches(node, wn, avoid=[h for h in g.nodes if h.kind == 'cond' and isinstance(h.stmt, ast.While)]):
+                                later.append(w)
+                    ok2 = before and not later
+                    ctx.ob('R4.3', f'{ci.name}.{fn.name}:{ev}:last', ok2, sample=f'{ci.name}.{fn.name}: both states are ENDED before {ev} is fired: {before}; state writes after it: {len(later)}')
+                    if not ok2:
+                        ctx.finding('R4.3', f'{ci.name}.{fn.name}:{ev}:not-last', ci, later[0] if later else c,
+                                    f'{ev} is not the last act of the replication: run state / replication state are written after the notification '
+                                    f'({[short(w) for w in later[:2]]}) or are not yet ENDED when it is delivered; a listener that reads the state sees the replication '
+                                    'still running, and a command it issues (initialize for the next replication, cleanup) is overwritten afterwards', where=f'{ci.name}.{fn.name}')
     ctx.floor('R4.3', 'replication start/end fire sites', nrep, 3)
     # (iii) TIME_CHANGED carries the time of the popped event, between pop and execute
     ntc = 0
@@ -1117,14 +1136,22 @@ def r43_notifications(ctx, sc: SimCtx):
                             f'time-changed notification for the popped event {var} is wrong or missing ({why})', where=f'{ci.name}.{fn.name}')
     ctx.floor('R4.3', 'pop sites with TIME_CHANGED', ntc, 2)
     # (iv) warm-up
+    warmup_schedule(ctx, sc, 'R4.3')
+
+
+def warmup_schedule(ctx, sc: SimCtx, rule='R4.3'):
+    """one WARMUP_EVENT per initialize: warmup() fires it at the clock; initialize schedules it once, after the base
+    initialisation has reset the clock, at the absolute warm-up time of the replication"""
+    prog = ctx.prog
+    NORMAL = ('exc', 'raise', 'reraise')
     dc, wf = prog.resolve(SIM, 'warmup')
     if wf is None:
         raise AnalysisError('anchor vanished: Simulator.warmup')
     fires = _fires_of(wf, 'WARMUP_EVENT')
     ok = len(fires) == 1 and fires[0].func.attr == 'fire_timed' and sc.c(fires[0].args[0], dc.name) == sc.clock_t
-    ctx.ob('R4.3', 'Simulator.warmup', ok, sample=f'warmup(): {short(fires[0], 80) if fires else "no fire"}')
+    ctx.ob(rule, 'Simulator.warmup', ok, sample=f'warmup(): {short(fires[0], 80) if fires else "no fire"}')
     if not ok:
-        ctx.finding('R4.3', 'Simulator.warmup', dc, wf, 'warmup() does not fire exactly one WARMUP_EVENT timestamped with the clock', where='Simulator.warmup')
+        ctx.finding(rule, 'Simulator.warmup', dc, wf, 'warmup() does not fire exactly one WARMUP_EVENT timestamped with the clock', where='Simulator.warmup')
     dc, inf = prog.resolve(SIM, 'initialize')
     g = CFG(inf)
     sched = [c for c in walk_shallow(inf) if isinstance(c, ast.Call) and isinstance(c.func, ast.Attribute) and c.func.attr.startswith('schedule_event')
@@ -1138,9 +1165,9 @@ def r43_notifications(ctx, sc: SimCtx):
         a0 = sched[0].args[0] if sched[0].args else None
         tm = sc.c(a0, dc.name) if a0 is not None else None
         ok = ok and tm is not None and tm.endswith('.warmup_sim_time')
-    ctx.ob('R4.3', 'DEVSSimulator.initialize:warmup', ok, sample=f'initialize schedules warm-up once, after super().initialize, at `{tm}`: {ok}')
+    ctx.ob(rule, 'DEVSSimulator.initialize:warmup', ok, sample=f'initialize schedules warm-up once, after super().initialize, at `{tm}`: {ok}')
     if not ok:
-        ctx.finding('R4.3', 'DEVSSimulator.initialize:warmup-schedule', dc, sched[0] if sched else inf,
+        ctx.finding(rule, 'DEVSSimulator.initialize:warmup-schedule', dc, sched[0] if sched else inf,
                     'initialize must schedule exactly one warm-up event at replication.warmup_sim_time, after the base initialisation, on every path',
                     where='DEVSSimulator.initialize')
 
@@ -1476,6 +1503,23 @@ def r51_strategy_table(ctx, sc: SimCtx):
     if not ok:
         ctx.finding('R5.1', 'DEVSSimulator._run:loop-head', dc, loop.test, 'the run loop does not re-read the run state: a pause requested by the handler is not honoured before the next event',
                     where='DEVSSimulator._run')
+    # ... on every path: from the handler (which may request the pause) no pop_first() is reachable without passing a test of the
+    # run state -- an inner loop over simultaneous events that only tests the time would run events after the failing one
+    g5 = CFG(fn)
+    hnodes = [n for n in g5.nodes if n.kind == 'handler' and getattr(n, 'ast', None) is h] or [n for n in g5.nodes if n.kind == 'handler']
+    pops5 = [n for n in g5.nodes if n.ast is not None and n.kind in ('stmt', 'cond') and any(
+        isinstance(c, ast.Call) and isinstance(c.func, ast.Attribute) and c.func.attr == 'pop_first' for c in walk_shallow(n.ast)
+        if not isinstance(n.ast, (ast.While, ast.For, ast.If)) or c in list(ast.walk(n.ast.test if hasattr(n.ast, 'test') else n.ast.iter)))]
+    tests5 = [n for n in g5.nodes if n.kind == 'cond' and n.ast is not None and '_run_state' in sc.c(n.ast, dc.name)]
+    unguarded = [p5 for p5 in pops5 for hn in hnodes if g5.reaches(hn, p5, avoid=tests5)]
+    ok = bool(hnodes) and bool(pops5) and not unguarded
+    ctx.ob('R5.1', '_run:state-test-before-next-pop', ok, sample=f'_run: every path from the failure handler to the next pop_first() tests the run state: {ok} '
+           f'({len(hnodes)} handler entr{"y" if len(hnodes) == 1 else "ies"}, {len(pops5)} pop site(s), {len(tests5)} state test(s))')
+    if not ok:
+        node5 = unguarded[0].ast if unguarded else loop.test
+        ctx.finding('R5.1', 'DEVSSimulator._run:pop-without-state-test', dc, node5,
+                    'after a failing event the next pop_first() can be reached without a test of the run state: under WARN_AND_PAUSE events later than the '
+                    'failing one (e.g. other events of the same time stamp) still run before the simulator stops', where='DEVSSimulator._run')
     # nothing but the try follows the execute in the loop body that could skip events: statements after the try in the loop
     # SimEvent.execute wraps every handler exception
     se = prog.method('SimEvent', 'execute', inherited=False)
@@ -1635,6 +1679,7 @@ def r61_initialize_order(ctx, sc: SimCtx):
         if not ok:
             ctx.finding('R6.1', f'Simulator.initialize:{fld}', bci, bfn, f'{fld} is not set to {val} on every path of initialize', where='Simulator.initialize')
     warmup_priority(ctx, sc, 'R6.1')
+    warmup_schedule(ctx, sc, 'R6.1')
 
 
 def warmup_priority(ctx, sc: SimCtx, rule):
@@ -1848,3 +1893,40 @@ def r116_end_after_clock(ctx, sc: SimCtx):
         if not ok:
             ctx.finding('R11.6', 'SimulatorWorkerThread.run:END-timestamp', prog.cls('SimulatorWorkerThread'), c, 'END_REPLICATION_EVENT is not timestamped with the simulator clock',
                         where='SimulatorWorkerThread.run')
+
+
+# --------------------------------------------------------------------------- wake-up is the last act of a start command
+def wakeup_last(ctx, sc: SimCtx, rule):
+    """The command thread and the run thread must not notify listeners concurrently: in _start_impl every notification and
+    every state write happens before the worker is woken (afterwards the run thread owns the model)."""
+    prog = ctx.prog
+    ctx.rule(rule, 'start hand-over: in _start_impl all notifications (START_REPLICATION, STARTING) and state writes precede worker.wakeup(); '
+                   'after the wake-up the command thread only waits')
+    dc, fn = prog.resolve(SIM, '_start_impl')
+    if fn is None:
+        raise AnalysisError('anchor vanished: Simulator._start_impl')
+    g = CFG(fn)
+    wakes = [c for c in walk_shallow(fn) if isinstance(c, ast.Call) and isinstance(c.func, ast.Attribute) and c.func.attr == 'wakeup']
+    ctx.floor(rule, 'wakeup() calls in _start_impl', len(wakes), 1)
+    late = []
+    for w in wakes:
+        wn = _node_containing(g, w)
+        for c in walk_shallow(fn):
+            if isinstance(c, ast.Call) and isinstance(c.func, ast.Attribute) and c.func.attr in ('fire', 'fire_timed', 'fire_event', 'fire_timed_event') \
+                    and unparse(c.func.value) == 'self':
+                cn = _node_containing(g, c)
+                if cn is not wn and g.reaches(wn, cn):
+                    late.append(c)
+        for st in walk_shallow(fn):
+            if isinstance(st, ast.Assign) and any(isinstance(t, ast.Attribute) and t.attr in ('_run_state', '_replication_state', '_run_until_time', '_run_until_including')
+                                                  for t in st.targets):
+                sn = g.node_for(st)
+                if g.reaches(wn, sn):
+                    late.append(st)
+    ok = not late
+    ctx.ob(rule, 'Simulator._start_impl:wakeup-last', ok, sample=f'_start_impl: notifications / state writes reachable after wakeup(): {[short(x, 50) for x in late]}')
+    if not ok:
+        ctx.finding(rule, 'Simulator._start_impl:after-wakeup', dc, late[0],
+                    f'`{short(late[0], 70)}` can run after the worker thread was woken: the run thread already executes simulation events while the command thread is still '
+                    'notifying listeners / writing run parameters, so what listeners see and do (draw random numbers, schedule events) depends on thread timing',
+                    where='Simulator._start_impl')
